@@ -81,7 +81,19 @@ fn strategy(n: std::ops::Range<usize>) -> impl Strategy<Value = (i8, Vec<Step>)>
         1 => Just(Step::Compact),
         1 => Just(Step::Reopen),
     ];
-    (prop_oneof![3 => Just(0i8), 2 => Just(1i8), 1 => -2i8..3], prop::collection::vec(step, n))
+    // "recycling" pattern built by construction: the newest node(s) are deleted, the tombstone is
+    // compacted away, the handle is reopened and the clock is set back to before those
+    // nodes were created -- the allocator must still not hand their identities out again
+    let recycle = (1usize..4, prop_oneof![Just(-1_000i64), Just(-5_000_000_000i64), -200i64..0], create(), cyw::route()).prop_map(|(k, jump, c, r)| {
+        let mut v: Vec<Step> = (0..k).map(|_| Step::Delete(u16::MAX)).collect();
+        v.push(Step::Compact);
+        v.push(Step::Reopen);
+        v.push(Step::Clock { jump, inc: 0 });
+        v.push(Step::Stmt(c, r));
+        v
+    });
+    let chunk = prop_oneof![12 => step.prop_map(|s| vec![s]), 1 => recycle];
+    (prop_oneof![3 => Just(0i8), 2 => Just(1i8), 1 => -2i8..3], prop::collection::vec(chunk, n).prop_map(|v| v.concat()))
 }
 
 fn build(c: &Create, model: &crate::model::Model, next_k: &mut i64) -> RS {
